@@ -40,7 +40,7 @@ def _build_in(d, release, tag):
     # dependencies are compiled once into a shared cache (cargo locks it); only the library copy is rebuilt per run
     tdir = os.path.join(HERE, '.cache', 'replay_target')
     os.makedirs(tdir, exist_ok=True)
-    env = dict(os.environ, CARGO_NET_OFFLINE='true', CARGO_TARGET_DIR=tdir)
+    env = dict(os.environ, CARGO_NET_OFFLINE='true', CARGO_TARGET_DIR=tdir, CARGO_INCREMENTAL='0')
     env.pop('RUSTUP_TOOLCHAIN', None)
     import fcntl
     with open(os.path.join(tdir, '.lock'), 'w') as lk:
@@ -50,26 +50,40 @@ def _build_in(d, release, tag):
         if r.returncode != 0:
             return None
         p = os.path.join(d, 'fpreplay.release.bin' if release else 'fpreplay.bin')
-        shutil.copy(os.path.join(tdir, 'release' if release else 'debug', 'fpreplay'), p)
+        prof = os.path.join(tdir, 'release' if release else 'debug')
+        shutil.copy(os.path.join(prof, 'fpreplay'), p)
+        # the library copy and the replay crate live at a fresh path every run, so their artefacts are never reused: drop them
+        # (only the third-party dependencies stay cached)
+        import glob as _g
+        for pat in ('deps/*lipe_find_parser-*', 'deps/*fpreplay-*', '.fingerprint/lipe-find-parser-*', '.fingerprint/fpreplay-*', 'incremental/*'):
+            for x in _g.glob(os.path.join(prof, pat)):
+                if os.path.isdir(x):
+                    shutil.rmtree(x, ignore_errors=True)
+                else:
+                    try:
+                        os.remove(x)
+                    except OSError:
+                        pass
     open(os.path.join(d, tag), 'w').write(p)
     return p
 
 
 def run_requests(binary, reqs):
     def esc(s):
-        return s.replace('\\', '\\\\').replace('\n', '\\n').replace('\t', '\\t')
+        return s.replace('\\', '\\\\').replace('\n', '\\n').replace('\t', '\\t').replace('\r', '\\r')
     inp = ''.join('\t'.join(esc(x) for x in r) + '\n' for r in reqs)
-    r = subprocess.run([binary], input=inp, stdout=subprocess.PIPE, stderr=subprocess.PIPE, text=True, timeout=300)
+    r = subprocess.run([binary], input=inp.encode('utf-8'), stdout=subprocess.PIPE, stderr=subprocess.PIPE, timeout=600)
+    stdout = r.stdout.decode('utf-8', 'replace')
 
     def unesc(s):
         out, i = [], 0
         while i < len(s):
             if s[i] == '\\' and i + 1 < len(s):
-                out.append({'n': '\n', 't': '\t', '\\': '\\'}.get(s[i + 1], '\\' + s[i + 1])); i += 2
+                out.append({'n': '\n', 't': '\t', 'r': '\r', '\\': '\\'}.get(s[i + 1], '\\' + s[i + 1])); i += 2
             else:
                 out.append(s[i]); i += 1
         return ''.join(out)
-    return [[unesc(x) for x in l.split('\t')] for l in r.stdout.split('\n') if l]
+    return [[unesc(x) for x in l.split('\t')] for l in stdout.split('\n') if l]
 
 
 # ------------------------------------------------------------------------------------------------
@@ -125,6 +139,25 @@ KANI_DECODERS = {
 }
 
 
+def generators_for(key):
+    """input families that exercise a clause: the exact entry of GENERATED, then the rules of FAMILY_RULES (by clause-id pattern)"""
+    out = []
+    g = GENERATED.get(key)
+    if g is not None:
+        out += list(g) if isinstance(g, (tuple, list)) else [g]
+    for pat, fams in FAMILY_RULES:
+        if re.search(pat, key):
+            out += [f for f in fams if f not in out]
+    return tuple(out)
+
+
+def cases_for(key):
+    fam = list(CANNED.get(key, []))
+    for gen in generators_for(key):
+        fam += list(gen())
+    return fam
+
+
 def find(pid, f, repo, scratch):
     """try to attach a concrete failing input (f['witness'], f['replayed']) to a failure record"""
     if f.get('kind') == 'kani':
@@ -150,10 +183,12 @@ def find(pid, f, repo, scratch):
                     w['observed'] = out[0][:2] if out else None
         return
     # Verus failures: inputs that exercise exactly this clause (search only)
-    fam = list(CANNED.get(f.get('clause') or '', []))
-    gen = GENERATED.get(f.get('clause') or '')
-    if gen:
-        fam += list(gen())
+    key = f.get('clause') or ''
+    fam = cases_for(key)
+    if (not fam or key.startswith('ASSUME.')) and f.get('kind') in ('overflow', 'bounds', 'unreachable', 'termination', 'divzero', 'panic', 'precondition'):
+        # a panic condition the verifier could not exclude: look for an input that panics
+        key = 'SAFETY.undecided'
+        fam = fam + cases_for(key)
     if not fam:
         return
     binary = build_replayer(repo, scratch)
@@ -183,7 +218,7 @@ def find(pid, f, repo, scratch):
             bad = case['bad'](gs) if case.get('repeat') else case['bad'](got)
         if bad:
             f['witness'] = dict(public_api_input=case['input'], request=case['op'], observed=[x[:300] for x in got[:3]], expected=case['expect'],
-                                repeated=case.get('repeat', 1), family=f.get('clause'))
+                                repeated=case.get('repeat', 1), family=key)
             f['replayed'] = True
             return
 
@@ -228,7 +263,7 @@ def family_options():
     for base in bases:
         # insertion points: before word i (never between a keyword and its argument)
         points = [i for i in range(len(base) + 1) if i == 0 or base[i - 1] not in ('-name', '-size')]
-        for k in (1, 2):
+        for k in (1, 2, 3):
             for chosen in itertools.product(opts, repeat=k):
                 for where in itertools.combinations_with_replacement(points, k):
                     words, ref = [], []
@@ -362,6 +397,14 @@ def family_clock():
     yield dict(op='timed', input='-atime +1 -o -cmin 3', expect='embedded second within [start, end] of the compile call', bad=bad)
     yield dict(op='sleep', input='1100', expect='', bad=lambda g: False)
     yield dict(op='timed', input='-mtime -2', expect='embedded second within [start, end] of the compile call', bad=bad)
+    # … and after a compilation that was refused half-way (a time test before an unsupported primary), and after a rejected input
+    yield dict(op='timed', input='-mmin -5 -user root', expect='refused', bad=lambda g: False)
+    yield dict(op='sleep', input='1100', expect='', bad=lambda g: False)
+    yield dict(op='timed', input='-amin +1', expect='embedded second within [start, end] of the compile call', bad=bad)
+    yield dict(op='timed', input='-mmin -5 -o -nosuch', expect='rejected', bad=lambda g: False)
+    yield dict(op='timed', input='-cmin -7 -printf "%Z"', expect='refused', bad=lambda g: False)
+    yield dict(op='sleep', input='1100', expect='', bad=lambda g: False)
+    yield dict(op='timed', input='-cmin -7 -o -mtime 0', expect='embedded second within [start, end] of the compile call', bad=bad)
 
 
 def family_determinism():
@@ -443,6 +486,291 @@ def family_panics():
         yield dict(op='parse', input=arg, expect='an error value, never a panic', bad=lambda g: g[0] == 'PANIC')
 
 
+def program_defects(prog, table_text):
+    """structure of an emitted program that every property about names and routing relies on: the let* header binds each generated
+    name once; the policy body only mentions bound names; in framed mode every printer's tag is its index, is a one-byte character
+    literal, and the set of tags is the set of keys of the reported table"""
+    m = re.search(r'\(let\* \((.*?)\)\n  \(dynamic-wind', prog, re.S)
+    if not m:
+        return 'no let* header'
+    header = m.group(1)
+    binders = re.findall(r'\((%lf3:(?:match|print|port|mutex|frame):\d+) \(', header)
+    if len(binders) != len(set(binders)):
+        dup = sorted(set(b for b in binders if binders.count(b) > 1))
+        return 'bound twice: %s' % ', '.join(dup[:3])
+    body = prog[m.end():]
+    for ref in re.findall(r'%lf3:(?:match|print|port|mutex|frame):\d+', body):
+        if ref not in binders:
+            return 'the body mentions %s, which is not bound' % ref
+    framed = '(%lf3:frame:2 (lambda' in header
+    table = {}
+    for e in [e for e in (table_text or '').split(';') if e]:
+        k, _, v = e.partition('=')
+        table[int(k)] = v
+    if framed:
+        tags = {}
+        for idx, lit in re.findall(r'\(%lf3:print:(\d+) \(lambda \(line\) \(%lf3:frame:2 line (#\\\S*?)\)\)\)', header):
+            mm = re.fullmatch(r'#\\x([0-9a-f]+)', lit)
+            if not mm:
+                return 'printer %s carries the tag %s, not a character literal' % (idx, lit)
+            tags[int(idx)] = int(mm.group(1), 16)
+        for idx, tag in tags.items():
+            if tag not in table:
+                return 'printer %d frames with tag %d, which is not a key of the table %s' % (idx, tag, sorted(table)[:8])
+        if len(set(tags.values())) != len(tags):
+            return 'two printers frame with the same tag'
+        if set(tags.values()) != set(table):
+            return 'table keys %s are not the tags in use %s' % (sorted(table)[:8], sorted(set(tags.values()))[:8])
+    elif table:
+        return 'plain mode reports a destination table'
+    return None
+
+
+def family_long():
+    """many generated names in one expression (ids past 0x1e, 0x7f, 0xff): n distinct name tests before -print0, k distinct -fprint
+    files, and mixtures; every input stays under 4 KiB. bad = a panic, a defect of the program structure (see program_defects), a
+    table that is not exactly the expected destinations, or a body reference that reaches another destination's printer"""
+    def case(inp, dests):
+        def bad(g, dests=dests):
+            if g[0] == 'PANIC':
+                return True
+            if g[0] != 'OK':
+                return False
+            if program_defects(g[1], g[2] if len(g) > 2 else ''):
+                return True
+            table = {}
+            for e in [e for e in (g[2] if len(g) > 2 else '').split(';') if e]:
+                k, _, v = e.partition('=')
+                table[int(k)] = v
+            if sorted(table.values()) != sorted(set(dests)):
+                return True
+            refs = [int(x) for x in re.findall(r'\(call-with-relative-path %lf3:print:(\d+)\)', g[1])]
+            return len(refs) != len(dests) or any(table.get(r) != d for r, d in zip(refs, dests))
+        assert len(inp.encode()) < 4096, len(inp)
+        return dict(op='compile', input=inp, expect='no panic; names bound once and before use; table = the %d distinct destination(s), each frame tag a key of it; '
+                    'each action reaches its own destination' % len(set(dests)), bad=bad)
+    stdout0 = "Stdout(Some('\\0'))"
+    fdest = lambda i: 'File("f%d", Some(\'\\n\'))' % i
+    for n in (0, 1, 13, 14, 15, 61, 62, 63, 64, 126, 127, 128, 129, 300):
+        yield case(' '.join('-name a%d' % i for i in range(n)) + ' -print0', [stdout0])
+    for k in (1, 2, 3, 27, 28, 29, 30, 31, 125, 126, 127, 128, 253, 254, 255, 256, 257, 300):
+        yield case(' '.join('-fprint f%d' % i for i in range(k)), [fdest(i) for i in range(k)])
+    for n, k in ((40, 50), (10, 20), (100, 60), (126, 3)):
+        yield case(' '.join('-name a%d' % i for i in range(n)) + ' ' + ' '.join('-fprint f%d' % i for i in range(k)), [fdest(i) for i in range(k)])
+    # a printer first requested after the counter passed 255, with earlier printers live (and repeats of earlier destinations)
+    yield case('-fprint f0 -fprint f1 ' + ' '.join('-name a%d' % i for i in range(127)) + ' -fprint f2 -fprint f0 -fprint f1', [fdest(0), fdest(1), fdest(2), fdest(0), fdest(1)])
+    yield case('-fprint f0 ' + ' '.join('-iname a%d -fprint f%d' % (i, i + 1) for i in range(130)), [fdest(i) for i in range(131)])
+
+
+AST_ATOMS = None
+
+
+def ast_trees():
+    """trees in the notation {:?} prints, all inside the domain of the compile contract (no option and no precedence nodes), most of
+    them shapes the parser never builds: empty lists, out-of-range codes, every format field, odd characters, extreme counts"""
+    fields = ['Percent', 'Access', "AccessFormatted('H')", 'DiskSizeBlocks', 'Change', "ChangeFormatted('Y')", 'Depth', 'DeviceNumber', 'Basename', 'FsType',
+              'Group', 'GroupId', 'Parents', 'StartingPoint', 'InodeDecimal', 'DiskSizeKilos', 'SymbolicTarget', 'PermissionsOctal', 'PermissionsSymbolic',
+              'Hardlinks', 'Name', 'NameWithoutStartingPoint', 'DiskSizeBytes', 'Sparseness', 'Modify', "ModifyFormatted('s')", 'User', 'UserId', 'Type',
+              'TypeSymlink', 'SecurityContext', 'FileId', 'ProjectId', 'MirrorCount', 'StripeCount', 'StripeSize', 'XAttr("user.a")', 'XAttr("")', 'XAttr("a\\"b")']
+    specials = ['Alarm', 'Backspace', 'Clear', 'Form', 'Newline', 'CarriageReturn', 'TabHorizontal', 'TabVertical', 'Null', 'Backslash'] + \
+               ['Ascii(%d)' % n for n in (0, 1, 7, 34, 92, 126, 127, 128, 255, 256, 257, 511, 512, 1000, 32767, 55296, 65535)]
+    out = []
+    out += ['Test(Type([]))', 'Test(Type([File]))', 'Test(Type([File, File]))', 'Test(Type([Block, Character, Directory, Pipe, File, Link, Socket]))',
+            'Not(Test(Type([])))', 'And(Test(Type([])), Action(Print))']
+    for el in ([], ['Literal("")'], ['Literal("x")'], ['Literal("")', 'Literal("")']):
+        out.append('Action(PrintFormatted([%s]))' % ', '.join(el))
+        out.append('Action(FilePrintFormatted("out", [%s]))' % ', '.join(el))
+        out.append('Action(FilePrintFormatted("", [%s]))' % ', '.join(el))
+    for f in fields:
+        out.append('Action(PrintFormatted([Field(%s), Special(Newline)]))' % f)
+        out.append('Action(FilePrintFormatted("o", [Literal("a"), Field(%s)]))' % f)
+    for ch in ('"', '\\\\', '~', '\\n', '\u00e9', ' ', '%', '\\0', '\\\''):
+        for k in ('AccessFormatted', 'ChangeFormatted', 'ModifyFormatted'):
+            out.append("Action(PrintFormatted([Field(%s('%s')), Special(Newline)]))" % (k, ch))
+    for sp in specials:
+        out.append('Action(PrintFormatted([Literal("a"), Special(%s)]))' % sp)
+        out.append('Action(PrintFormatted([Special(%s), Special(Newline)]))' % sp)
+    for k in ('Name', 'InsensitiveName', 'Path', 'InsensitivePath', 'Pool', 'Xattr'):
+        for sv in ('', ' ', '\\0', 'a\\"b', 'a\\\\', '\u00e9' * 50):
+            out.append('Test(%s("%s"))' % (k, sv))
+            out.append('And(Test(%s("%s")), Action(PrintNull))' % (k, sv))
+    out += ['Test(XattrMatch("", ""))', 'Test(XattrMatch("a\\"", "\\\\"))']
+    for a in ('FilePrint', 'FilePrintNull', 'FileList'):
+        for sv in ('', 'a\\"b', '\u00e9' * 50):
+            out.append('Action(%s("%s"))' % (a, sv))
+    for bits in (0, 0o777, 0o7777, 0o10000, 0o170000, 0o177777, 2 ** 31, 2 ** 32 - 1):
+        for k in ('AtLeast', 'Any', 'Equal'):
+            out.append('Test(Perm(%s(Permission(Mode(%d)))))' % (k, bits))
+    big = [0, 1, 2 ** 24, 2 ** 24 + 1, 2 ** 54, 2 ** 63, 2 ** 64 - 1]
+    for c in ('GreaterThan', 'LesserThan', 'Equal'):
+        for v in big:
+            for u in ('Byte', 'Word', 'Block', 'KiloByte', 'MegaByte', 'GigaByte', 'TeraByte'):
+                out.append('Test(Size(%s(%s(%d))))' % (c, u, v))
+            for u in ('Second', 'Minute', 'Hour', 'Day'):
+                for k in ('AccessTime', 'ChangeTime', 'ModifyTime'):
+                    out.append('Test(%s(%s(%s(%d))))' % (k, c, u, v))
+            out.append('Test(Links(%s(%d)))' % (c, v))
+        for v in (0, 1, 2 ** 31, 2 ** 32 - 1):
+            for k in ('GroupId', 'InodeNumber', 'MirrorCount', 'StripeCount', 'UserId'):
+                out.append('Test(%s(%s(%d)))' % (k, c, v))
+    out += ['Action(DefaultPrint)', 'And(Action(DefaultPrint), Action(DefaultPrint))', 'Or(Action(DefaultPrint), Action(PrintNull))', 'Not(Action(DefaultPrint))',
+            'List(Action(Quit), Action(Prune))', 'Action(PrintFid)', 'And(Action(PrintFid), Action(PrintNull))', 'Positional(XDev)', 'And(Test(True), Positional(XDev))']
+    deep = 'Test(True)'
+    for _ in range(64):
+        deep = 'Not(%s)' % deep
+    out.append(deep)
+    chain = 'Test(Name("n0"))'
+    for i in range(1, 130):
+        chain = 'And(%s, Test(Name("n%d")))' % (chain, i)
+    out.append('And(%s, Action(PrintNull))' % chain)
+    return out
+
+
+def family_ast():
+    """C03 / C17 on trees handed to compile directly: never a panic (the debug/release comparison uses the same trees)"""
+    for t in ast_trees():
+        for opts in ('', 'RunOptions { depth: true, threads: Some(4294967295) }'):
+            yield dict(op='ast', input=t + ('\t' + opts if opts else ''), expect='a program or an error value, never a panic', bad=lambda g: g[0] == 'PANIC')
+
+
+def query_trees():
+    """(notation, has an action, needs framed output) for trees of depth <= 3 over every kind of leaf and all five operators —
+    option and precedence nodes included (C19 speaks about every tree the public types allow); the two expectations are computed
+    here from the property statement, not from the code"""
+    nl = 'Special(Newline)'
+    leaves = [('Test(True)', False, False), ('Test(False)', False, False), ('Test(Name("x"))', False, False), ('Global(Depth)', False, False),
+              ('Global(Threads(2))', False, False), ('Positional(XDev)', False, False),
+              ('Action(Print)', True, False), ('Action(PrintNull)', True, True), ('Action(FilePrint("f"))', True, True), ('Action(FilePrintNull("f"))', True, True),
+              ('Action(FilePrintFormatted("f", [Literal("x"), %s]))' % nl, True, True), ('Action(FilePrintFormatted("f", []))', True, True),
+              ('Action(FileList("f"))', True, True), ('Action(List)', True, False), ('Action(Quit)', True, False), ('Action(Prune)', True, False),
+              ('Action(PrintFid)', True, False), ('Action(DefaultPrint)', True, False),
+              ('Action(PrintFormatted([]))', True, False), ('Action(PrintFormatted([%s]))' % nl, True, False), ('Action(PrintFormatted([Literal("a")]))', True, True),
+              ('Action(PrintFormatted([%s, Literal("a")]))' % nl, True, True), ('Action(PrintFormatted([Field(Name), %s]))' % nl, True, False),
+              ('Action(PrintFormatted([Literal("a"), Special(Null)]))', True, True), ('Action(PrintFormatted([%s, %s]))' % (nl, nl), True, False),
+              ('Action(PrintFormatted([Literal("\\n")]))', True, True)]
+    un = ('Precedence', 'Not')
+    bi = ('And', 'Or', 'List')
+    out = list(leaves)
+    for o in un:
+        out += [('%s(%s)' % (o, t), a, f) for t, a, f in leaves]
+    for o in bi:
+        out += [('%s(%s, %s)' % (o, t1, t2), a1 or a2, f1 or f2) for t1, a1, f1 in leaves for t2, a2, f2 in leaves]
+    core = [leaves[i] for i in (0, 1, 3, 6, 7, 8, 20)]
+    for o1 in bi:
+        for o2 in bi + un:
+            for x in core:
+                for y in core:
+                    if o2 in un:
+                        out.append(('%s(%s(%s), %s)' % (o1, o2, x[0], y[0]), x[1] or y[1], x[2] or y[2]))
+                        out.append(('%s(%s, %s(%s))' % (o1, x[0], o2, y[0]), x[1] or y[1], x[2] or y[2]))
+                        out.append(('%s(%s(%s(%s)), %s)' % (o1, o2, 'Not', x[0], y[0]), x[1] or y[1], x[2] or y[2]))
+                    else:
+                        for z in core:
+                            out.append(('%s(%s(%s, %s), %s)' % (o1, o2, x[0], y[0], z[0]), x[1] or y[1] or z[1], x[2] or y[2] or z[2]))
+                            out.append(('%s(%s, %s(%s, %s))' % (o1, x[0], o2, y[0], z[0]), x[1] or y[1] or z[1], x[2] or y[2] or z[2]))
+    deep = ('Action(PrintNull)', True, True)
+    for i in range(12):
+        deep = ('%s(%s)' % (un[i % 2], deep[0]), True, True)
+        out.append(deep)
+    return out
+
+
+def family_queries():
+    """C19: 'contains an action' and 'needs framed output' on directly built trees"""
+    for t, act, fr in query_trees():
+        want = ['OK', 'true' if act else 'false', 'true' if fr else 'false']
+        yield dict(op='query', input=t, expect='action() = %s, complex_frames() = %s' % (want[1], want[2]), bad=(lambda g, want=want: g[0] != 'PANIC' and g[:3] != want))
+
+
+def family_units():
+    """C19: unit tables and byte sizes"""
+    for u, m in (('Byte', 1), ('Word', 2), ('Block', 512), ('KiloByte', 2 ** 10), ('MegaByte', 2 ** 20), ('GigaByte', 2 ** 30), ('TeraByte', 2 ** 40)):
+        for n in (0, 1, 3, 2 ** 24 - 1, 2 ** 24, 2 ** 24 + 1, 2 ** 32, 2 ** 54, 2 ** 55, 2 ** 55 + 1, 2 ** 63, 2 ** 64 - 1):
+            want = ['OK', str(m), str(n * m)]
+            yield dict(op='units', input='%s(%d)' % (u, n), expect='mult = %d, byte_size = %d' % (m, n * m), bad=(lambda g, want=want: g[:3] != want))
+    for u, m in (('Second', 1), ('Minute', 60), ('Hour', 3600), ('Day', 86400)):
+        for n in (0, 1, 2 ** 64 - 1):
+            want = ['OK', str(m)]
+            yield dict(op='units', input='%s(%d)' % (u, n), expect='secs = %d' % m, bad=(lambda g, want=want: g[:2] != want))
+
+
+def family_frames():
+    """C10/C19 through the parser: framed output is selected exactly when some action writes to a file, is NUL-terminated or prints a
+    format not ending in the newline escape — wherever that action sits (behind -false, right of -o, negated, in a ',' list)"""
+    atoms = [('-true', {}), ('-false', {}), ('-print', {}), ('-quit', {}), ('-print0', {'fr': True}), ('-fprint f', {'fr': True}),
+             ('-printf "x\\n"', {}), ('-printf x', {'fr': True})]
+    for text, fl in gen_exprs(atoms):
+        fr = fl.get('fr', False)
+
+        def bad(g, fr=fr):
+            if g[0] != 'OK':
+                return False
+            framed = '(%lf3:frame:2 (lambda' in g[1]
+            return framed != fr or bool(g[2] if len(g) > 2 else '') != fr
+        yield dict(op='compile', input=text, expect='framed output and a destination table' if fr else 'plain output and no destination table', bad=bad)
+
+
+def family_renders():
+    """C20: one compiled expression rendered several times with different device paths (among them the escaped spelling of the path
+    just rendered, and a repeat): every rendering carries its own path, as the decoded value of the string after (lipe-scan, the
+    rest of the program is the same in all of them, and the reported table does not change"""
+    seqs = [['/mnt/a"b', '/mnt/a\\"b', '/mnt/a"b'], ['/dev/x\\y', '/dev/x\\\\y', '/'], ['/', '/', '/a'], ['/a', '/b', '/a', '/b'],
+            ['/{mdt}', '/{options}', '/{policy}'], ['/a\\', '/a\\\\', '/a\\\\\\\\'], ['/"', '/\\"', '/\\\\\\"', '/"'], ['', '/', ''], ['/caf\u00e9', '/cafe', '/caf\u00e9']]
+    for inp in ('-name x', '-print0 -o -fprint out', '-name "a\\"b" -print'):
+        for paths in seqs:
+            def bad(g, paths=paths):
+                if g[0] != 'OK':
+                    return False
+                progs = g[2:2 + len(paths)]
+                if len(progs) != len(paths) or g[1] != g[2 + len(paths)]:
+                    return True
+                rest = set()
+                for pth, prog in zip(paths, progs):
+                    lit = '(lipe-scan\n        "%s"\n' % _scheme_esc(pth)
+                    if prog.count(lit) != 1:
+                        return True
+                    rest.add(prog.replace(lit, '(lipe-scan\n        DEVICE\n'))
+                return len(rest) != 1
+            yield dict(op='renders', input='\t'.join([inp] + paths), expect='each rendering carries its own device path; the table is unchanged', bad=bad)
+
+
+def family_ast_refusal():
+    """C12 on directly built trees: a tree holding an unsupported primary, format directive or \\c is refused, every other tree of
+    the family compiles"""
+    bad_fields = ['Depth', 'DeviceNumber', 'FsType', 'SymbolicTarget', 'PermissionsSymbolic', 'TypeSymlink', 'SecurityContext']
+    good_fields = ['Percent', 'Access', "AccessFormatted('H')", "AccessFormatted('@')", 'DiskSizeBlocks', 'Change', "ChangeFormatted('Y')", 'Basename', 'Group',
+                   'GroupId', 'Parents', 'StartingPoint', 'InodeDecimal', 'DiskSizeKilos', 'PermissionsOctal', 'Hardlinks', 'Name', 'NameWithoutStartingPoint',
+                   'DiskSizeBytes', 'Sparseness', 'Modify', "ModifyFormatted('s')", 'User', 'UserId', 'Type', 'FileId', 'ProjectId', 'MirrorCount', 'StripeCount',
+                   'StripeSize', 'XAttr("user.a")']
+    bad_tests = ['AccessNewer("f")', 'ChangeNewer("f")', 'FsType("lustre")', 'Group("g")', 'InsensitiveLinkName("l")', 'InsensitiveRegex("r")', 'LinkName("l")',
+                 'ModifyNewer("f")', 'NoGroup', 'NoUser', 'Regex("r")', 'Samefile("f")', 'User("u")']
+    trees = []
+    for f in bad_fields:
+        for shape in ('Action(PrintFormatted([Field(%s)]))', 'Action(PrintFormatted([Field(Name), Literal(" "), Field(%s), Special(Newline)]))',
+                      'Action(FilePrintFormatted("o", [Field(%s), Field(Name)]))', 'Or(Test(False), Action(PrintFormatted([Literal("a"), Field(%s)])))'):
+            trees.append((shape % f, True))
+    for f in good_fields:
+        trees.append(('Action(PrintFormatted([Field(Name), Literal(" "), Field(%s), Special(Newline)]))' % f, False))
+        trees.append(('Action(FilePrintFormatted("o", [Field(%s)]))' % f, False))
+    trees += [('Action(PrintFormatted([Literal("a"), Special(Clear)]))', True), ('Action(FilePrintFormatted("o", [Special(Clear), Field(Name)]))', True),
+              ('Action(PrintFormatted([Literal("a"), Special(Backslash), Special(Ascii(65))]))', False)]
+    for t in bad_tests:
+        trees += [('Test(%s)' % t, True), ('And(Test(True), Not(Test(%s)))' % t, True), ('List(Test(%s), Action(Print))' % t, True), ('Or(Test(True), Test(%s))' % t, True)]
+    trees += [('Action(List)', True), ('Action(FileList("f"))', True), ('Positional(XDev)', True), ('And(Test(True), Positional(XDev))', True),
+              ('And(Test(Name("a")), Action(Print))', False), ('Test(Type([File]))', False), ('List(Action(Quit), Action(PrintFid))', False),
+              ('List(Action(Quit), Action(Prune))', True), ('Action(Prune)', True)]
+    for t, refused in trees:
+        yield dict(op='ast', input=t, expect='refused' if refused else 'compiles',
+                   bad=(lambda g, refused=refused: (g[0] == 'OK' and refused) or (g[0] == 'CERR' and not refused)))
+
+
+def family_ast_structure():
+    """the structural demands (names bound once and before use, tags = table keys) on the same directly built trees"""
+    for t in ast_trees():
+        yield dict(op='ast', input=t, expect='names bound once and before use; frame tags = keys of the table',
+                   bad=lambda g: g[0] == 'OK' and program_defects(g[1], g[2] if len(g) > 2 else '') is not None)
+
+
 def _scheme_esc(s):
     return s.replace('\\', '\\\\').replace('"', '\\"')
 
@@ -463,6 +791,15 @@ def family_hostile():
             yield dict(op='compile', input='-name %s\t%s' % (quote(wd), p),
                        expect='device literal "%s" after (lipe-scan, and the pattern literal "%s" in its matcher' % (_scheme_esc(p), _scheme_esc(wd)),
                        bad=(lambda g, a=want_dev, b=want_pat: g[0] == 'OK' and (a not in g[1] or b not in g[1])))
+    # the same words through every matcher keyword, under both output modes (plain, and framed: -print0 / -fprint)
+    for wd in words:
+        if '"' in wd and "'" in wd:
+            continue
+        for kw, fn in (('-name', 'streq'), ('-iname', 'streq-ci'), ('-path', 'streq'), ('-ipath', 'streq-ci')):
+            for tail in ('', ' -print0', ' -fprint out', ' -printf x'):
+                want_pat = '(%s? "%s" ' % (fn, _scheme_esc(wd))
+                yield dict(op='compile', input='%s %s%s' % (kw, quote(wd), tail), expect='the pattern literal "%s" in its %s matcher' % (_scheme_esc(wd), fn),
+                           bad=(lambda g, b=want_pat: g[0] == 'OK' and b not in g[1]))
 
 
 GENERATED = {
@@ -479,6 +816,21 @@ GENERATED = {
     'C11.local.definitions': family_determinism, 'C11.dist.definitions': family_determinism,
     'C11.local.matcher.text': family_determinism, 'C11.dist.matcher.text': family_determinism,
 }
+
+
+# clause-id pattern -> further families (searched only after the verifier reported, or could not decide, the clause)
+FAMILY_RULES = [
+    (r'^C19\.(action|frames)', (family_queries, family_frames)),
+    (r'^C19\.(mult|secs|byte_size)|^C07\.byte_size', (family_units,)),
+    (r'^C10\.top\.manager_choice|^C10\.table\.iff_framed|^C10\.top\.table_iff', (family_frames,)),
+    (r'^C20\.', (family_renders, family_hostile)),
+    (r'\.matcher\.|get_matcher|matcher_name|matcher_ref', (family_matchers, family_hostile, family_long, family_ast_structure)),
+    (r'\.(printer|file_port|default_port)\.|get_printer|get_file_printer|printer_name|printer_ref|printf_ref|^C10\.(table|top|routing|terminator_text)|\.definitions$',
+     (family_table, family_long, family_determinism, family_ast_structure)),
+    (r'^C12\.', (family_refusal, family_ast_refusal)),
+    (r'^SAFETY\.|^C11\.budget', (family_panics, family_long, family_ast)),
+    (r'^C04\.(placeholder|literal|snippet|format)|^C03\.type_list|^C07\.(size|time)|^C08\.', (family_ast_refusal, family_ast_structure)),
+]
 
 
 def _has(sub):
@@ -539,10 +891,11 @@ CANNED = {
 
 # functions left outside the verifier (assumed contracts) that get a BOUNDED stand-in: the family is run on every check
 BOUNDED_STANDINS = {
-    'C15': [('BOUNDED.clock_window', 'BOUNDED.clock_window', 'compile_time_comp\'s clock read (SystemTime: no clock model in the verifier) — bounded stand-in: three '
-             'time-test compilations in one process more than a second apart; each embedded second must lie within its own compile call')],
+    'C15': [('BOUNDED.clock_window', 'BOUNDED.clock_window', 'compile_time_comp\'s clock read (SystemTime: no clock model in the verifier) — bounded stand-in: five '
+             'time-test compilations in one process more than a second apart, two of them right after a refused or rejected compilation that '
+             'contained a time test; each embedded second must lie within its own compile call')],
     'C13': [('BOUNDED.parse_options', 'BOUNDED.parse_options', 'find_parser::_parse (winnow combinators and closures over &mut state: outside the verifier) — bounded '
-             'stand-in: 1..2 options out of {-depth, -threads 2, -threads 8} inserted at every word boundary of 4 base expressions; the options returned '
+             'stand-in: 1..3 options out of {-depth, -threads 2, -threads 8} inserted at every word boundary of 4 base expressions; the options returned '
              'carry the last value of each and the tree is that of the expression with misplaced options read as -true')],
     'C03': [('BOUNDED.parse_total', 'BOUNDED.parse_total', 'find_parser::parse incl. ParserError::dispatch (outside the verifier) — bounded stand-in: every prefix and '
              'four single-character mutations at every position of 6 valid inputs, and long / non-ASCII words after 12 keywords: never a panic')],
@@ -565,7 +918,7 @@ def profile_agreement(repo, scratch):
         f['witness_error'] = 'could not build both profiles'
         return f
     reqs, seen = [], set()
-    for fam in (family_parse_total, family_parse_numbers, family_options, family_numbers, family_refusal, family_hostile, family_table, family_panics):
+    for fam in (family_parse_total, family_parse_numbers, family_options, family_numbers, family_refusal, family_hostile, family_table, family_panics, family_long, family_ast):
         for c in fam():
             r = (c['op'],) + tuple(c['input'].split('\t'))
             if r not in seen:
@@ -622,11 +975,7 @@ def replay(record, repo):
             print('observed mode: %s' % (None if obs is None else '%04o' % obs))
             return 1 if obs is not None and '%04o' % obs != w['expected_mode'] else 0
         # re-evaluate the oracle of the family the input came from
-        fam = list(CANNED.get(w.get('family') or '', []))
-        gen = GENERATED.get(w.get('family') or '')
-        if gen:
-            fam += list(gen())
-        for case in fam:
+        for case in cases_for(w.get('family') or ''):
             if case['input'] == inp and case['op'] == w.get('request', 'compile'):
                 bad = case['bad'](out) if case.get('repeat') else case['bad'](out[0])
                 print('still violates the clause on the current tree' if bad else 'no longer violates the clause on the current tree')
